@@ -225,6 +225,10 @@ func c10Catalogue(r *Rich, thorough bool) []c10Case {
 	add("list", core.R("", "list", "--epic", r.Unknown))
 	add("list", core.R("", "--json", "list", "--nope"))
 	add("prune", core.R("", "--json", "prune", "x"))
+	add("prune", core.R("", "prune", "--yes"))
+	add("prune", core.R("", "prune"))
+	add("prune", core.R("", "-v", "prune", "--yes"))
+	add("compact", core.R("", "compact"))
 	add("compact", core.R("", "--json", "compact", "x"))
 	add("where", core.R("", "--json", "where", "x"))
 	add("init", core.R("", "--json", "init", "a", "b"))
@@ -347,6 +351,14 @@ func runC10(env *core.Env) {
 		l.Link(e1, e2)
 		cyc := rich.Store.WithLog(append(append([]byte{}, rich.Store.Log()...), l.Bytes()...))
 		pres = append(pres, cyc)
+	}
+	{
+		// finished items whose titles are short in runes and long in bytes (and the other way round is impossible): text
+		// output that abbreviates them is produced after the write
+		fx := FixFrom(env, w0, rich.Store, rich.N)
+		fx.Must(core.R("", "--json", "set", rich.ByState["done"]).In(jsonStr(map[string]string{"title": strings.Repeat("完了した作業", 4)})))
+		fx.Must(core.R("", "--json", "set", rich.ByState["canceled"]).In(jsonStr(map[string]string{"title": strings.Repeat("\U0001F600", 20)})))
+		pres = append(pres, fx.Store())
 	}
 	// the rich store whose last writer died mid-line: every command that appends first heals the tail (a rewrite), so
 	// failures now happen on the rewrite path
